@@ -99,6 +99,7 @@ structure Stuck (s : St) (c : Nat) (rest : List Nat) : Prop where
   mu    : s.mu = some .run
   rl    : s.rl = .configSet
   never : neverLaunched s c = true
+  okd   : s.okd.contains c = false
 
 theorem neverLaunched_setChild (s : St) (c g c' : Nat) (st : ChildSt) (h : neverLaunched s c = true) :
     neverLaunched (setChild s g c' st) c = true := by
@@ -135,40 +136,51 @@ theorem ranAndReturned_never {s : St} {c : Nat} (h : neverLaunched s c = true) :
 (the other pending `Stop()`s may return) -/
 theorem stuck_step {s s' : St} {c : Nat} {rest : List Nat} {a : Act} (h : Stuck s c rest) (hs : step s a = some s') :
     ∃ rest', Stuck s' c rest' := by
-  obtain ⟨hb, hrun, hnd, hmu, hrl, hnever⟩ := h
+  obtain ⟨hb, hrun, hnd, hmu, hrl, hnever, hokd⟩ := h
   cases a <;> simp only [step, hrun, hmu, hrl, tr] at hs
   case stopCall =>
-    cases hs; exact ⟨rest, hb, by simp, hnd, by simp, by simp, hnever⟩
+    cases hs; exact ⟨rest, hb, by simp, hnd, by simp, by simp, hnever, hokd⟩
   case cancelCtx =>
-    cases hs; exact ⟨rest, hb, by simp, hnd, by simp, by simp, hnever⟩
+    cases hs; exact ⟨rest, hb, by simp, hnd, by simp, by simp, hnever, hokd⟩
   case reloadCall =>
-    cases hs; exact ⟨rest, hb, by simp, hnd, by simp, by simp, hnever⟩
+    cases hs; exact ⟨rest, hb, by simp, hnd, by simp, by simp, hnever, hokd⟩
   case reloadAck st =>
     split at hs
-    · cases hs; exact ⟨rest, hb, by simp, hnd, by simp, by simp, hnever⟩
+    · cases hs; exact ⟨rest, hb, by simp, hnd, by simp, by simp, hnever, hokd⟩
     · cases hs
   case observe st =>
     split at hs
-    · cases hs; exact ⟨rest, hb, hrun, hnd, hmu, hrl, hnever⟩
+    · cases hs; exact ⟨rest, hb, hrun, hnd, hmu, hrl, hnever, hokd⟩
     · cases hs
   case childStopInv c' =>
     split at hs
-    · cases hs; exact ⟨rest, hb, hrun, hnd, hmu, hrl, hnever⟩
+    · cases hs
+      by_cases hrr : ranAndReturned s c' = true
+      · simp only [hrr, if_true]
+        have hne : c' ≠ c := by
+          intro heq; subst heq
+          rw [ranAndReturned_never hnever] at hrr; cases hrr
+        refine ⟨rest, hb, by simp, hnd, by simp, by simp, hnever, ?_⟩
+        have hcc : (c == c') = false := by simpa using fun h' => hne h'.symm
+        show (c' :: s.okd).contains c = false
+        rw [List.contains_cons, hcc, hokd]; rfl
+      · simp only [hrr, Bool.false_eq_true, if_false]
+        exact ⟨rest, hb, hrun, hnd, hmu, hrl, hnever, hokd⟩
     · cases hs
   case childRun g c' =>
     split at hs
-    · cases hs; exact ⟨rest, hb, hrun, hnd, hmu, hrl, neverLaunched_setChild _ _ _ _ _ hnever⟩
+    · cases hs; exact ⟨rest, hb, hrun, hnd, hmu, hrl, neverLaunched_setChild _ _ _ _ _ hnever, hokd⟩
     · cases hs
   case childExit g c' o =>
     split at hs
     · cases hs
       split
-      · exact ⟨rest, hb, hrun, hnd, hmu, hrl, neverLaunched_setChild _ _ _ _ _ hnever⟩
-      · exact ⟨rest, hb, hrun, hnd, hmu, hrl, neverLaunched_setChild _ _ _ _ _ hnever⟩
+      · exact ⟨rest, hb, hrun, hnd, hmu, hrl, neverLaunched_setChild _ _ _ _ _ hnever, hokd⟩
+      · exact ⟨rest, hb, hrun, hnd, hmu, hrl, neverLaunched_setChild _ _ _ _ _ hnever, hokd⟩
     · cases hs
   case childExitDropped g c' =>
     split at hs
-    · cases hs; exact ⟨rest, hb, hrun, hnd, hmu, hrl, neverLaunched_setChild _ _ _ _ _ hnever⟩
+    · cases hs; exact ⟨rest, hb, hrun, hnd, hmu, hrl, neverLaunched_setChild _ _ _ _ _ hnever, hokd⟩
     · cases hs
   case childStopRet c' =>
     split at hs
@@ -178,15 +190,21 @@ theorem stuck_step {s s' : St} {c : Nat} {rest : List Nat} {a : Act} (h : Stuck 
       cases hs
       by_cases hcc : c' = c
       · subst hcc
-        rcases hok with hok | hok
+        rcases hok with (hok | hok) | hok
         · rw [hb] at hok; cases hok
         · rw [ranAndReturned_never hnever] at hok; cases hok
+        · rw [hokd] at hok; cases hok
       · -- another pending Stop() returned
         have hne : (c == c') = false := by simpa using fun h' => hcc h'.symm
-        refine ⟨rest.erase c', hb, ?_, ?_, by simp, by simp, hnever⟩
-        · simp [List.erase_cons, hne]
+        refine ⟨rest.erase c', hb, ?_, ?_, by simp, by simp, hnever, ?_⟩
+        · simp [hne]
         · have := List.nodup_cons.mp hnd
           exact List.nodup_cons.mpr ⟨fun hm => this.1 (List.mem_of_mem_erase hm), this.2.erase c'⟩
+        · cases hx : (s.okd.erase c').contains c with
+          | false => rfl
+          | true =>
+            have : c ∈ s.okd := List.mem_of_mem_erase (by simpa using hx)
+            simp [this] at hokd
     · cases hs
   all_goals (simp at hs)
 
@@ -210,11 +228,11 @@ def f1Schedule : List Act :=
 /-- **C09-F1 is a behaviour of the model**: the stuck configuration is reachable with bundled-style children -/
 theorem c09_f1_reachable : ∃ s, Reach lts (init [0, 1]) s ∧ Stuck s 1 [] := by
   have hrun : ∃ s, run lts (init [0, 1]) f1Schedule = some s ∧ s.blockers.contains 1 = true ∧ s.run = .stopping [1]
-      ∧ s.mu = some .run ∧ s.rl = .configSet ∧ neverLaunched s 1 = true := by
+      ∧ s.mu = some .run ∧ s.rl = .configSet ∧ neverLaunched s 1 = true ∧ s.okd.contains 1 = false := by
     refine ⟨_, rfl, ?_⟩
     decide
-  obtain ⟨s, hs, h1, h2, h3, h4, h5⟩ := hrun
-  exact ⟨s, reach_of_run hs, ⟨h1, h2, by simp, h3, h4, h5⟩⟩
+  obtain ⟨s, hs, h1, h2, h3, h4, h5, h6⟩ := hrun
+  exact ⟨s, reach_of_run hs, ⟨h1, h2, by simp, h3, h4, h5, h6⟩⟩
 
 /-- with children whose `Stop()` never waits (`blocking = false`) the same schedule runs to the end: `Run()` returns
 (with an error: `Transition(Stopped)` is refused in state Reloading), the reload returns, and the child the overtaken
